@@ -294,7 +294,7 @@ def _expand_quantifiers(e, bound, cache):
             raise ValueError("existential left after nnf")
         n = e.num_vars()
         body = e.body()
-        if n > 2:
+        if n > 2 and (bound + 3) ** n > 8000:
             raise ValueError("too many bound variables")
         import itertools
         insts = []
@@ -382,6 +382,17 @@ def extract_model(model, model_vars, cap=70000):
                 e = model.eval(z3.Select(desc["arr"], z3.IntVal(i)), model_completion=True)
                 items.append(_pyval(e, desc["elem"]))
             out[name] = {"seq": desc["seqkind"], "len": n, "items": items, "truncated": truncated}
+        elif kind == "region":
+            n = model.eval(desc["n"], model_completion=True)
+            n = max(0, n.as_long()) if z3.is_int_value(n) else 0
+            objs = []
+            for i in range(min(n, 64)):
+                o = {}
+                for f, (fk, arr) in desc["fields"].items():
+                    e = model.eval(z3.Select(arr, z3.IntVal(i)), model_completion=True)
+                    o[f] = _pyval(e, "int" if fk == "link" else fk)
+                objs.append(o)
+            out[name] = {"region": True, "n": n, "objects": objs, "truncated": n > 64}
     return out
 
 
